@@ -256,7 +256,7 @@ func genLiteral(t *rapid.T) (lit string, valid bool) {
 func TestC12Random(t *testing.T) {
 	run := h.Begin("C12", "random", "rapid: integer/fraction/exponent parts of 0-40 digits, occasionally 63-1000 digits (leading zeros, exponent values up to 10^6), all four literal forms, valid single separators, and one injected malformation (identifier character after the literal, exponent without digits, misplaced underscore); oracle and non-trivial rule as in the exhaustive part; distinct by literal text")
 	defer run.End(t)
-	h.RapidSetup(h.N(4000, 300000), "c12rand")
+	h.RapidSetup(h.N(4000, 1500000), "c12rand")
 	rapid.Check(t, func(rt *rapid.T) {
 		lit, valid := genLiteral(rt)
 		msg, cls := checkLiteral(lit)
